@@ -17,7 +17,8 @@ LEVEL_NOTE = c02.LEVEL_NOTE
 TECHNIQUE = "Coq proof (per-layer algebraic identities, lra/nra) + bit-exact kernel correspondence + trace oracle"
 
 ORACLE_KEYS = ("uptake-credit", "uptake-credited-in-later-substep", "mineral-bookkeeping", "organic-pool-negative",
-               "dissolved-exceeds-applied", "c1-negative", "state-not-finite", "fixation-credit")
+               "dissolved-exceeds-applied", "c1-negative", "state-not-finite", "fixation-credit",
+               "tillage-mixing-not-conservative", "tillage-run-error")
 
 
 def correspond(ctx):
@@ -34,5 +35,5 @@ def oracle(ctx, search):
         fails.append(Fail(key="trace-crash", what="traced run aborted", stderr=terr[-800:]))
     for l in orc + torc:
         if l.startswith(ORACLE_KEYS):
-            fails.append(Fail(key=re.sub(r"(value|before|after|naos|nfos|ums0|ums|dsumm|aufnasum-delta|sum-pe|dPESUM|dAUFNASUM)=\S+", "", l)[:100].strip(), what=l))
+            fails.append(Fail(key=re.sub(r"(value|before|after|naos|nfos|ums0|ums|dsumm|aufnasum-delta|sum-pe|dPESUM|dAUFNASUM|fast-before|slow-before)=\S+", "", l)[:100].strip(), what=l))
     return fails
